@@ -364,6 +364,9 @@ def run(ctx: Ctx) -> int:
             leafs |= {x.id for x in ast.walk(c.args[1]) if isinstance(x, ast.Name)}
     ok = {"str", "ForwardRef"} <= leafs
     ctx.oblige("C12.g", ok, tre, "both spellings of an unevaluated annotation (a string, and the ForwardRef that typing makes of a quoted sub-type) are sent to evaluation" if ok else f"type_requires_eval only recognises {sorted(leafs)}: a parameter annotated List['int'] / Optional['Opts'] keeps its ForwardRef, is skipped as unsupported, and the component is called without it (TypeError) or its value is rejected as unexpected", fn=tre, construct="unevaluated leaf kinds")
+    agg = [c for c in calls_in(tre) if call_leaf(c) in ("any", "all") and any(call_leaf(x) == "type_requires_eval" for x in calls_in(c))]
+    ok = bool(agg) and all(call_leaf(c) == "any" for c in agg)
+    ctx.oblige("C12.g", ok, agg[0] if agg else tre, "a container hint needs evaluation as soon as ONE of its members does" if ok else "a container hint is sent to evaluation only when ALL its members need it: Dict[str, 'Leaf'] keeps its forward reference, the parameter is skipped (fail_untyped=False) or breaks the CLI, and the component is called without it", fn=tre, construct="any member requires eval")
     asp2 = ctx.func("_signatures:SignatureArguments._add_signature_parameter")
     gasp = ctx.cfg(asp2)
     ann_locals = [s_.targets[0].id for s_ in walk_local(asp2) if isinstance(s_, ast.Assign) and isinstance(s_.targets[0], ast.Name) and ast.unparse(s_.value) == "param.annotation"]
